@@ -134,8 +134,84 @@ def sweep(tier, seed=0):
         if fails:
             break
     out.append(_rep("RepartitionToMore._nsplits/_layer (extracted source, graph interpreted on a row model)", {"old <": 12 if tier == "quick" else 30}, cases, fails, t0, {"old": 4, "new": 6}))
+    out.append(size_sweep(tier, seed))
     out.append(divisions_sweep(tier))
     return out
+
+
+def size_sweep(tier, seed=0):
+    """RepartitionSize: _nsplits, _partition_boundaries and _layer (extracted source, NumPy/pandas: bounded only) on
+    memory-usage vectors that include empty (0-byte) partitions; the produced graph is interpreted on a row model."""
+    import numpy as np
+    import pandas as pd
+
+    from dask.utils import iter_chunks
+
+    t0 = time.time()
+    clean = srcexec.load(F, "_clean_new_division_boundaries")
+    nspl = srcexec.load(F, "RepartitionSize._nsplits")
+    pbf = srcexec.load(F, "RepartitionSize._partition_boundaries", {"np": np, "pd": pd, "iter_chunks": iter_chunks, "_clean_new_division_boundaries": clean})
+    layer = srcexec.load(F, "RepartitionSize._layer", {"np": np, "pd": pd, "tokenize": lambda *a: "tok", "split_evenly": "split_evenly", "getitem": "getitem",
+                                                       "methods": NS(concat="concat"), "Any": object})
+    rnd = random.Random(seed)
+    vecs = []
+    vals = (0, 3, 10, 25)
+    for n in range(1, 5 if tier == "quick" else 6):
+        vecs += list(itertools.product(vals, repeat=n))
+    for _ in range(300 if tier == "quick" else 5000):
+        vecs.append(tuple(rnd.choice((0, 0, 1, 7, 10, 19, 20, 33, 64)) for _ in range(rnd.randrange(1, 9))))
+    fails, cases = [], 0
+    for vec in vecs:
+        for size in (10, 7, 100):
+            cases += 1
+            args = {"mem_usages": list(vec), "partition_size": size}
+            self = NS(frame=NS(npartitions=len(vec), _name="in", divisions=(None,) * (len(vec) + 1)), _name="out", _size=size, _mem_usage=pd.Series(list(vec)))
+            try:
+                self._nsplits = nspl(self)
+                self._partition_boundaries = pbf(self)
+                d = layer(self)
+                rows = {i: [(i, r) for r in range(m)] for i, m in enumerate(vec)}  # one row per byte: an empty partition has none
+
+                def ev(t):
+                    if isinstance(t, tuple) and t and t[0] == "split_evenly":
+                        p, k = ev(t[1]), int(t[2])
+                        q, m = divmod(len(p), k)
+                        pieces, pos = [], 0
+                        for x in range(k):
+                            ln = q + (1 if x < m else 0)
+                            pieces.append(p[pos:pos + ln])
+                            pos += ln
+                        return pieces
+                    if isinstance(t, tuple) and t and t[0] == "getitem":
+                        return ev(t[1])[t[2]]
+                    if isinstance(t, tuple) and t and t[0] == "concat":
+                        return [r for part in t[1] for r in ev(part)]
+                    if isinstance(t, tuple) and len(t) == 2 and t[0] == "in":
+                        return rows[t[1]]
+                    if isinstance(t, tuple) and t in d:
+                        return ev(d[t])
+                    raise ValueError(f"the graph refers to {t!r}, which it does not define")
+
+                outs = sorted(k for k in d if k[0] == "out")
+                got = []
+                for k in outs:
+                    got += ev(d[k])
+                want = [r for i in range(len(vec)) for r in rows[i]]
+                msg = None
+                if outs != [("out", j) for j in range(len(outs))] or len(outs) != len(self._partition_boundaries) - 1:
+                    msg = f"output partitions {outs[:5]} do not match the boundaries {list(self._partition_boundaries)}"
+                elif got != want:
+                    msg = f"repartition(partition_size={size}) keeps {len(got)} of {len(want)} rows (same order: {got == want})"
+            except Exception as e:  # noqa
+                msg = f"{type(e).__name__}: {e}"
+            if msg:
+                fails.append(rtc.Failure("RepartitionSize._layer", args, "ensures", "C44-rows-and-order", msg))
+                break
+        if fails:
+            break
+    return _rep("RepartitionSize._nsplits/_partition_boundaries/_layer (extracted source, NumPy/pandas; bounded only; graph interpreted on a row model)",
+                {"memory usages": "all vectors over {0,3,10,25} up to length 4 (quick) / 5 + seeded random vectors with empty partitions", "partition_size": [10, 7, 100]}, cases, fails, t0,
+                {"mem_usages": [25, 0, 25], "partition_size": 10})
 
 
 def _rep(fn, bound, cases, fails, t0, sample):
